@@ -362,6 +362,12 @@ def finish(prop, mod, tier, seed, total, wall, nshards, done, harness_errors):
     )
     for c in total.caps:
         print(f"CAP: {c}")
+    if confirmed or not_replayed:
+        # A violation replayed twice from a fresh state with identical outcome is a sound detection whatever else
+        # went wrong on this (broken) tree: vacuity or determinism complaints are consequences and printed as notes.
+        for h in harness_errors[:20]:
+            print(f"NOTE (harness complaint on a tree with confirmed violations): {h}")
+        return EXIT_VIOLATION
     if harness_errors:
         for h in harness_errors[:20]:
             print(f"HARNESS-ERROR: {h}")
